@@ -31,11 +31,13 @@ package rpm
 //
 //@ func (r *RPM) Package(info *nfpm.Info, w io.Writer) (err error)
 //@   requires info != nil
+//@   requires !ghostFlag("signerFailed")
 //@   requires files.SpecContentsNonNil(info.Contents)
 //@   requires !ghostFlag("failed") && !ghostFlag("clockRead") && !ghostFlag("envRead")
 //@   ensures [C06] loud: implies(err == nil, !ghostFlag("failed"))
 //@   ensures [C07] no-clock: implies(!old(info.MTime.IsZero()), !ghostFlag("clockRead"))
 //@   ensures [C07] no-env: implies(old(info.RPM.BuildHost) != "", !ghostFlag("envRead"))
+//@   ensures [C10] signer-failure-is-typed: implies(ghostFlag("signerFailed"), err != nil && errAsSigningFailure(err) && errIs(err, globErr("signerErr")))
 //@   modifies [C11 C12] &info.Arch, &info.Release, &info.Contents, &info.RPM.Compression
 //
 //@ inline func createFilesInsideRPM(info *nfpm.Info, rpm *rpmpack.RPM) (err error)
